@@ -1,5 +1,6 @@
 """C05 — no entry point panics, aborts, overflows the stack or hangs (structural clauses)."""
 import json
+import re
 import os
 
 import cg as cgmod
@@ -662,6 +663,10 @@ def r_arith(ctx):
             if src:
                 ctx.violation(rid, key, file, line, "unreviewed arithmetic on a number that comes from the document or the schema (%s): it must be "
                               "checked_*, saturating_* or widened — plain operators panic in overflow-checked builds and wrap otherwise" % src)
+            elif re.search(r"(?<![<>=!+*/-])-(?!>)", key.split("|", 2)[2]):
+                # an unreviewed subtraction: lengths and counters are unsigned, `a - b` panics (or wraps) when b > a
+                ctx.violation(rid, key, file, line, "unreviewed subtraction on lengths / counters: unsigned `a - b` underflows when b > a; it needs "
+                              "saturating_sub / checked_sub or a review entry naming the guard that makes it safe")
             else:
                 ctx.site(rid, key + "|auto-structural", file, line, {"note": "not in the reviewed table; operands are lengths, counters or positions"})
         elif n > ent.get("count", 1) and (key in value_sources or ent["class"] != "structural"):
